@@ -224,6 +224,9 @@ fn deviation(j: Option<&J>, clause: &str, detail: &str) -> Option<&'static str> 
 }
 
 fn judge(text: &str, origin: &str, order: u64, st: &mut Stats) {
+    // "never hangs": the watchdog reports a text whose parse (or an operation on the parsed schema) is
+    // still running after 20 s of wall time during which the process burnt 40 s of CPU
+    let _watch = ev::watch(|| text.to_string());
     st.states += 1;
     st.evaluations += 1;
     st.transitions += 1;
@@ -273,6 +276,7 @@ fn judge(text: &str, origin: &str, order: u64, st: &mut Stats) {
 
 pub fn run(tier: Tier, replay: Option<&J>) -> i32 {
     let start = Instant::now();
+    ev::start_watchdog("C11", "parsing a text (or an operation on the accepted schema) does not finish", 20, 40.0);
     if let Some(r) = replay {
         let mut st = Stats::default();
         if let Some(t) = r["text"].as_str() {
